@@ -597,6 +597,33 @@ func (r *W3Run) execOps() {
 			}
 		case "wait":
 			s.runFor(time.Duration(op.Ms) * time.Millisecond)
+		case "svcread":
+			// read-only catalogue requests through the service layer (Get with and without
+			// sizes, List): they must not change anything a later snapshot records
+			if op.Node >= 1 && op.Node <= len(s.nodes) && s.nodes[op.Node-1].alive && s.nodes[op.Node-1].parts != nil {
+				n := s.nodes[op.Node-1]
+				slots := make([]int, 0, len(r.ds))
+				for slot := range r.ds {
+					slots = append(slots, slot)
+				}
+				sort.Ints(slots)
+				for _, slot := range slots {
+					info := r.ds[slot]
+					if info == nil || !info.ackedCreate {
+						continue
+					}
+					id := info.id
+					g := s.client(n, fmt.Sprintf("get-dataset#%d", slot), 5*time.Second, func(ctx context.Context, n *simNode) (interface{}, error) {
+						return n.svcDM.Get(ctx, &pb.GetDatasetRequest{DatasetId: id.Bytes(), WithSize: op.A == 1})
+					})
+					s.runUntil(func() bool { return g.done }, 8*time.Second)
+				}
+				l := s.client(n, "list-datasets", 5*time.Second, func(ctx context.Context, n *simNode) (interface{}, error) {
+					return nil, n.svcDM.List(&pb.ListDatasetsRequest{WithSize: op.A == 1}, srvStreamDatasets{&fakeServerStream{ctx: ctx}})
+				})
+				s.runUntil(func() bool { return l.done }, 8*time.Second)
+				s.out.Stat("service_level_catalogue_reads", 1)
+			}
 		case "crash":
 			if op.Node >= 1 && op.Node <= len(s.nodes) && s.nodes[op.Node-1].alive {
 				s.pump()
